@@ -389,6 +389,9 @@ func readNullableBytes(reader *bytes.Reader, length int32) ([]byte, error) {
 	if length < 0 {
 		return nil, nil
 	}
+	if int64(length) > int64(reader.Len()) {
+		return nil, io.ErrUnexpectedEOF
+	}
 	data := make([]byte, length)
 	if _, err := io.ReadFull(reader, data); err != nil {
 		return nil, err
